@@ -433,16 +433,28 @@ func (s *Script) evalWithRoot(stack, data, root any) (any, Expr) {
 	return stack, locs
 }
 
-// sameValue is == for values that can be compared; lists and maps are never the
-// same value (comparing them with == panics).
+// sameValue is == for single values; containers (lists, maps, structs, arrays
+// and collections behind a pointer) are never the same value whatever holds
+// them (comparing some of them with == panics).
 func sameValue(left, right any) bool {
-	if lt := reflect.TypeOf(left); lt != nil && !lt.Comparable() {
+	if lt := reflect.TypeOf(left); lt != nil && !singleValued(lt) {
 		return false
 	}
-	if rt := reflect.TypeOf(right); rt != nil && !rt.Comparable() {
+	if rt := reflect.TypeOf(right); rt != nil && !singleValued(rt) {
 		return false
 	}
 	return left == right
+}
+
+func singleValued(t reflect.Type) bool {
+	switch t.Kind() {
+	case reflect.Bool, reflect.String,
+		reflect.Int, reflect.Int8, reflect.Int16, reflect.Int32, reflect.Int64,
+		reflect.Uint, reflect.Uint8, reflect.Uint16, reflect.Uint32, reflect.Uint64,
+		reflect.Float32, reflect.Float64:
+		return true
+	}
+	return false
 }
 
 func normalize(v any) any {
